@@ -34,7 +34,7 @@ where
     }
 
     pub fn clear(&mut self) {
-        self.root_mut().take();
+        drop_nodes(self.root_mut().take());
         self.size = 0;
     }
 
@@ -389,6 +389,24 @@ impl<K, V> DoubleEndedIterator for IntoIter<K, V> {
 }
 
 impl<K, V> ExactSizeIterator for IntoIter<K, V> {}
+
+impl<K, V> Drop for IntoIter<K, V> {
+    fn drop(&mut self) {
+        drop_nodes(self.cur.take());
+    }
+}
+
+/// Drops a (sub)tree without recursion: the default drop glue of `Box<Node>` recurses once per
+/// level, which overflows the stack for the degenerate (list-like) trees that sorted insertion
+/// produces.
+fn drop_nodes<K, V>(root: Option<Box<Node<K, V>>>) {
+    let mut pending: Vec<Box<Node<K, V>>> = Vec::new();
+    pending.extend(root);
+    while let Some(mut node) = pending.pop() {
+        pending.extend(node.left.take());
+        pending.extend(node.right.take());
+    }
+}
 
 /// Performs a top-down splay operation on a tree rooted at `node`. This will
 /// modify the pointer to contain the new root of the tree once the splay
